@@ -4,6 +4,7 @@
 -/
 import J1939.Gen.Eval
 import J1939.Model.Ecu
+import J1939.Model.Dm1
 namespace J1939.Driver
 open J1939 J1939.Gen
 
@@ -81,6 +82,10 @@ def withEcu (st : St) (i : Nat) (f : EcuSt → EcuSt × List String) : St × Lis
 def setAt {α} [Inhabited α] (l : List α) (k : Nat) (v : α) : List α :=
   if k < l.length then l.set k v else l ++ List.replicate (k - l.length) default ++ [v]
 
+def triples : List Nat → List Dm1.Dtc
+  | a :: b :: c :: rest => { spn := a, fmi := b, oc := c } :: triples rest
+  | _ => []
+
 def step (st : St) (line : String) : St × List String :=
   match (line.trimAscii.toString.splitOn " ").filter (· ≠ "") with
   | [] => (st, [])
@@ -146,6 +151,19 @@ def step (st : St) (line : String) : St × List String :=
   | ["ecu.dump", i] =>
     match i.toNat? with
     | some i => withEcu st i fun e => (e, [dumpCore e.core])
+    | none => (st, ["bad-args"])
+  | ["dm1.send", pgn, lamps, flat] =>
+    match pgn.toNat?, parseList lamps, parseList flat with
+    | some pgn, some lamps, some flat =>
+      let r := Dm1.send pgn lamps (triples flat)
+      (st, [s!"pgn {r.dp} {r.pf} {r.ps} {r.prio} {showList r.data}"])
+    | _, _, _ => (st, ["bad-args"])
+  | ["dm1.parse", data] =>
+    match parseList data with
+    | some data =>
+      match Dm1.parse data with
+      | none => (st, ["reject"])
+      | some (lamps, dtcs) => (st, [s!"lamps {showList lamps} dtcs {showList (dtcs.flatMap fun d => [d.spn, d.fmi, d.oc])}"])
     | none => (st, ["bad-args"])
   | _ => (st, ["bad-op"])
 
